@@ -64,3 +64,32 @@ func init() {
 		c.Add(&Job{Pkg: utilPkg, Func: "VerifC04CodeSigningScope", MustCover: []string{"code-signing scope", "outside code-signing scope"}, Tune: scope})
 	}
 }
+
+func init() {
+	checks["C07"] = func(c *Check) {
+		c.Technique = "symbolic execution of go/ssa + SMT (z3): self-composition - one object linted with a registry of stub lints and with every registry obtained from it by the real Filter (include list chosen symbolically); results compared"
+		c.Assume("L3 (no cross-lint channel): a lint's verdict is a function of the lint, the object and the configuration - the stub lints' behaviour is symbolic but the same in both runs; the sweep's write monitor (C05) justifies this for the real lints")
+		k := 2
+		if !c.Quick() {
+			k = 3
+		}
+		for kind := 0; kind < 3; kind++ {
+			kind := kind
+			c.Add(&Job{Label: fmt.Sprintf("Independence/%s,lints=%d", kindNames[kind], k), Pkg: rootPkg, Func: "VerifC07Independence", MustCover: []string{"selected lint", "unselected lint"}, PanicsAreFindings: true,
+				Tune: func(cf *Config) { cf.Bounds["param:fw.kind"], cf.Bounds["param:fw.k"] = kind, k; scopeStubs(cf) }})
+		}
+	}
+}
+
+func init() {
+	checks["C11"] = func(c *Check) {
+		c.Technique = "symbolic execution of go/ssa + SMT (z3) of MaybeConfigure/Configure/deserializeConfigInto, the three Execute wrappers, SetConfiguration/Filter/NewRegistry with configurable stub lints; the configuration document ranges over a pool of TOML shapes and is parsed/unmarshalled by the real go-toml library called natively by the engine"
+		c.Assume("go-toml (parser, Tree.Get, Tree.Unmarshal) is trusted and evaluated natively on concrete documents; the reflection walker resolveHigherScopedReferences is modelled as a no-op for configuration structs without higher-scoped fields (true of all four configurable lints in the tree and of the stubs)")
+		c.Assume("documents: empty, unrelated section, another lint's section, unknown key, well-typed options, ill-typed value (string, float), scalar / string / array where a table is expected, array of tables")
+		for kind := 0; kind < 3; kind++ {
+			kind := kind
+			c.Add(&Job{Label: "Config/" + kindNames[kind], Pkg: rootPkg, Func: "VerifC11Config", MustCover: []string{"unrelated or empty configuration", "option set", "section cannot be applied"}, PanicsAreFindings: true,
+				Tune: func(cf *Config) { cf.Bounds["param:fw.kind"] = kind; scopeStubs(cf) }})
+		}
+	}
+}
